@@ -120,3 +120,73 @@ func (o ExecOpts) timeoutOr(d time.Duration) time.Duration {
 	}
 	return d
 }
+
+// ExecPausedPipe runs the program while one of its files is a named pipe whose writer delivers `first`, stays
+// silent for `pause` (the pipe stays open), then delivers `rest` and closes. ok=false: the scenario could not be
+// set up (the program never opened the pipe).
+func ExecPausedPipe(hr string, args []string, o ExecOpts, fifo, first, rest string, pause time.Duration) (res Result, ok bool) {
+	p := filepath.Join(o.Dir, fifo)
+	os.Remove(p)
+	if err := syscall.Mkfifo(p, 0o644); err != nil {
+		return res, false
+	}
+	defer os.Remove(p)
+	cmd := exec.Command(hr, args...)
+	cmd.Dir = o.Dir
+	cmd.Env = BaseEnv()
+	for k, v := range o.Env {
+		cmd.Env = append(cmd.Env, k+"="+v)
+	}
+	var so, se lockedBuf
+	cmd.Stdout, cmd.Stderr = &so, &se
+	if err := cmd.Start(); err != nil {
+		return res, false
+	}
+	exited := make(chan error, 1)
+	go func() { exited <- cmd.Wait() }()
+	var w *os.File
+	for i := 0; i < 400 && w == nil; i++ {
+		if f, err := os.OpenFile(p, os.O_WRONLY|syscall.O_NONBLOCK, 0); err == nil {
+			w = f
+			break
+		}
+		select {
+		case err := <-exited:
+			exited <- err
+			i = 400
+		case <-time.After(10 * time.Millisecond):
+		}
+	}
+	if w != nil {
+		syscall.SetNonblock(int(w.Fd()), false)
+		go func() {
+			w.Write([]byte(first))
+			time.Sleep(pause)
+			w.Write([]byte(rest))
+			w.Close()
+		}()
+	}
+	var waitErr error
+	select {
+	case waitErr = <-exited:
+	case <-time.After(pause + o.timeoutOr(30*time.Second)):
+		cmd.Process.Kill()
+		waitErr = <-exited
+		res.TimedOut = true
+	}
+	res.Out, res.Serr, res.Count = so.String(), se.String(), 1
+	if waitErr != nil {
+		var ee *exec.ExitError
+		if errors.As(waitErr, &ee) {
+			if ws, k := ee.Sys().(syscall.WaitStatus); k && ws.Signaled() {
+				res.Signal = ws.Signal().String()
+				res.Exit = 128 + int(ws.Signal())
+			} else {
+				res.Exit = ee.ExitCode()
+			}
+		} else {
+			res.Exit = -1
+		}
+	}
+	return res, w != nil
+}
